@@ -204,7 +204,8 @@ def make_judges(ctx):
 def floors(tier):
     cells = [('mode-route', r, o, rt) for r in G.ROUNDINGS for o in G.OVERFLOWS for rt in ('constructor', 'call', 'set_val', 'setitem')]
     cells += [('family', f) for f in ('pyint', 'pyfloat', 'str', 'npf', 'npi', 'npu', 'arrf', 'arri', 'arru', 'list', 'tuple', 'pycomplex')]
-    cells += [('noncontiguous_carrier', c) for c in ('1d', '2d', 'bigfloat2d')] + [('object_array_mixed',)]
+    cells += [('noncontiguous_carrier', c) for c in ('1d', '2d', 'bigfloat2d')] + [('object_array_mixed',)] + [('object_array_numpy_first', t) for t in ('float32', 'float16', 'int8', 'uint8', 'int16')]
+    cells += [('complex_real_indexed', k_) for k_ in ('array', 'scalar', 'huge')]
     if np.finfo(np.longdouble).nmant > 52:
         cells += [('extended_precision_containers',)]
     return cells
@@ -354,6 +355,15 @@ def run_case(case, ctx):
                     on = np.empty(len(small) + 1, dtype=object)
                     on[:] = [els[1]] + [np.int8(int(small[0]))] + [np.float32(float(v)) if j_ % 2 else np.uint8(abs(int(v))) for j_, v in enumerate(small[1:])]
                     _store_all_routes(Fxp, on, (len(small) + 1,), s, w, nf, r, o, routes=('constructor', 'set_val'))
+                # ... with the narrow NumPy number first (the type of the first element must not become the type the values are read back in,
+                #     nor the type they are sized, scaled or converted in later)
+                for first in (np.float32(1.5), np.float16(0.75), np.int8(100), np.uint8(200), np.int16(-300 if s else 300)):
+                    if abs(F(first.item()) * F(2) ** nf) >= 2 ** 62:
+                        continue
+                    of_ = np.empty(len(els) + 1, dtype=object)
+                    of_[:] = [first] + [els[1], els[0]] + els[2:]
+                    _store_all_routes(Fxp, of_, (len(els) + 1,), s, w, nf, r, o, routes=('constructor', 'call', 'setitem') if first.dtype.kind == 'f' else ('constructor', 'set_val'))
+                    ctx.floor_hit(('object_array_numpy_first', first.dtype.name))
                 ctx.floor_hit(('object_array_mixed',))
         # extended-precision inputs (where longdouble is wider than a double): values of up to 63 significant bits next to codes and ties, as scalars,
         # arrays, lists and tuples of longdouble numbers - the configured rounding has to see all of their bits
@@ -423,3 +433,32 @@ def run_case(case, ctx):
         if all(G.can_carry(v, 'np:float32') for v in vals[:4]):
             c64 = np.array([complex(float(vals[0]), float(vals[1])), complex(float(vals[2]), float(vals[3]))], dtype=np.complex64)
             _store_all_routes(Fxp, c64, (2,), s, w, nf, r, o, routes=('constructor', 'set_val'))
+        # a real value written by index into a complex array / a complex scalar: every component is still read back as code * LSB, also through
+        # the `real` and `imag` attributes (plain attributes, not calls: compared here with what get_val() returns)
+        rv = next((float(v) for v in vals if G.can_carry(v, 'pyfloat')), 0.0)
+        for kind_ in ('array', 'scalar', 'huge'):
+            try:
+                if kind_ == 'array':
+                    xc = Fxp(np.array(cs), s, w, nf, rounding=r, overflow=o)
+                    xc[rng.randint(0, 3)] = rv
+                elif kind_ == 'scalar':
+                    xc = Fxp(cs[0], s, w, nf, rounding=r, overflow=o)
+                    xc[()] = rv
+                else:
+                    # (an out-of-range input of any magnitude must not turn the complex object into a real one)
+                    xc = Fxp(cs[0], s, w, nf, rounding=r, overflow='saturate')
+                    xc[rng.choice([(), Ellipsis])] = rng.choice([2 ** 70, -2 ** 64, 1e30, 2 ** 62 + 1])
+                got = xc.get_val()
+                dt = xc.dtype
+            except Exception:
+                continue
+            ok = True
+            if not np.iscomplexobj(got) or 'complex' not in str(dt):
+                ctx.violation('complex_lost', 'a real value written by index (%s) into a complex %s object made it real: dtype %s, value %r' % (kind_, R.dtype_fxp(s, w, nf), dt, got), key='store.complex_lost')
+                ok = False
+            elif not (np.array_equal(np.asarray(xc.real), np.asarray(got).real) and np.array_equal(np.asarray(xc.imag), np.asarray(got).imag)):
+                ctx.violation('real_imag_attributes', 'after a real value is written by index (%s) into a complex %s object: real=%r imag=%r, get_val()=%r' % (
+                    kind_, R.dtype_fxp(s, w, nf), xc.real, xc.imag, got), key='store.real_imag')
+                ok = False
+            ctx.judged(('complex-real-indexed-store', kind_), True, None)
+            ctx.floor_hit(('complex_real_indexed', kind_))
